@@ -1,5 +1,7 @@
 import Ampy.Lemmas.Merge
 import Ampy.Lemmas.Extra
+import Ampy.Lemmas.EndToEnd
+import Ampy.Lemmas.LayerSep
 /-!
 # C06 — groups, and layers split from one group, respect the minimum separation
 
@@ -81,5 +83,47 @@ theorem C06_layer_base_is_component_base {α} [DecidableEq α] (K : Kern) (P : P
         P.lookback P.basePerc := by
   rw [layer_selection_eq_component_lt K P hK data gids groups hg hcid hex lids ncomps h ind g hgi n hn hn2 minSep hms
     ids hgmm k hk]
+
+/-- End to end (first clause of C06): the groups table of every chunk `run` returns is pairwise separated by
+the minimum separation of the upper group's bin, for every accepted input, every base-height setting
+(percentile, look-back, excluded ceilometers) and every non-negative `MIN_SEP_VALS`. -/
+theorem C06_run_groups_separated {α} [DecidableEq α] (K : Kern) (P : PPrms α) (checked : List (Hit α))
+    (hA : Accepted K P checked) (hn : SepNonneg P.toPrms) (c : Chunk α) (h : run K P checked = .ok c)
+    (gr : Table) (hg : c.groups = some gr) :
+    ∀ r₁ ∈ gr, ∀ r₂ ∈ gr, r₁.cid ≠ r₂.cid → r₁.base ≤ r₂.base →
+      ∃ s, minSepFor P.toPrms r₂.base = .ok s ∧ r₂.base - r₁.base ≥ s :=
+  run_groups_separated K P checked hA hn c h gr hg
+
+/-- Decision level of the second clause: if `ncomp_from_gmm` reports as many components as the mixture it selected
+distinguishes (nothing re-merged), the base heights of any two components are at least `min_sep` apart — for every
+percentile, look-back and order of the values. -/
+theorem C06_unmerged_components_separated {α} (K : Kern) (P : PPrms α) (hK : KernOK K P.basePerc)
+    (vals : List Rat) (m : Nat) (minSep : Rat) (h0 : 0 ≤ minSep)
+    (n : Nat) (ids : List Nat) (h : ncompFromGmm K P vals m minSep = .ok (n, ids)) (hn2 : 2 ≤ n)
+    (f : GmmFit) (hsel : selectedFit K P vals m = some (n, f)) :
+    ∀ i j, i < n → j < n → i ≠ j → ∀ bi bj,
+      calcBase K.pctl (compVals vals ids i) P.lookback P.basePerc = .ok bi →
+      calcBase K.pctl (compVals vals ids j) P.lookback P.basePerc = .ok bj →
+      bi ≤ bj → bj - bi ≥ minSep :=
+  ncompFromGmm_unmerged_separated K P hK vals m minSep h0 n ids h hn2 f hsel
+
+/-- End to end (second clause of C06): in the layers table `run` returns, the layers split from a group that was split
+into as many layers as the selected mixture distinguishes (`selectedFit … = some (n, _)` with `n` the `ncomp` reported for
+the group: no sub-layer re-merged) are pairwise at least that group's minimum separation apart, when no ceilometer is
+excluded — whatever the percentile, the look-back and the row order of the input. -/
+theorem C06_run_split_layers_separated {α} [DecidableEq α] (K : Kern) (P : PPrms α) (checked : List (Hit α))
+    (hA : Accepted K P checked) (hsn : SepNonneg P.toPrms) (hex : P.exclude = [])
+    (c : Chunk α) (h : run K P checked = .ok c)
+    (gids : List Int) (gr lay : Table) (hgi : c.gids = some gids) (hg : c.groups = some gr) (hl : c.layers = some lay)
+    (ind : Nat) (g : Row) (hgr : gr[ind]? = some g) (n : Nat) (hnc : g.ncomp = some (n : Int)) (hn2 : 2 ≤ n)
+    (minSep : Rat) (hms : minSepFor P.toPrms g.base = .ok minSep)
+    (f : GmmFit)
+    (hsel : selectedFit K P (groupHeights K c.data gids g.cid)
+      (min ((groupHeights K c.data gids g.cid).eraseDups).length 3) = some (n, f)) :
+    ∀ r₁ ∈ lay, ∀ r₂ ∈ lay, ∀ k₁ k₂, k₁ < n → k₂ < n → k₁ ≠ k₂ →
+      r₁.cid = lidOffset gids + 10 * (ind : Int) + (k₁ : Int) →
+      r₂.cid = lidOffset gids + 10 * (ind : Int) + (k₂ : Int) →
+      r₁.base ≤ r₂.base → r₂.base - r₁.base ≥ minSep :=
+  run_split_layers_separated K P checked hA hsn hex c h gids gr lay hgi hg hl ind g hgr n hnc hn2 minSep hms f hsel
 
 end Ampy
